@@ -14,6 +14,7 @@ import RubatoProofs.Async.FixedIn
 import RubatoProofs.Async.FixedOut
 import RubatoProofs.Fft.Control
 import RubatoProofs.Props.C16
+import RubatoProofs.Lemmas.FormulaTie
 
 set_option linter.unusedSectionVars false
 set_option linter.unusedVariables false
@@ -102,4 +103,42 @@ theorem process_never_drops_frames {S χ : Type} (C : Core S χ) (L : C16.ChanLa
   obtain ⟨res, h1, -, h3⟩ := C16.process_returns_written C L s input mask s' nIn nOut out h hsz
   exact ⟨res, h1, h3⟩
 
+end Rubato.C04
+
+namespace Rubato.C04
+open Rubato Rubato.Gen
+
+/-- the size formulas the model (and hence every theorem above) uses are, for every arithmetic instance, literally the
+ones regenerated from the Rust source on this run (translator item G7): getters, needed-size formulas, buffer lengths -/
+theorem size_formulas_are_the_sources {ρ : Type} [RNum ρ] (chunk needed L : Nat) (last ratio target orig maxRel : ρ) :
+    outMaxIn chunk orig maxRel = Formulas.fastIn_output_frames_max chunk orig maxRel ∧
+    outMaxIn chunk orig maxRel = Formulas.sincIn_output_frames_max chunk orig maxRel ∧
+    outNextIn chunk ratio target = Formulas.fastIn_output_frames_next chunk ratio target ∧
+    outNextIn chunk ratio target = Formulas.fastIn_needed_len chunk ratio target ∧
+    outNextIn chunk ratio target = Formulas.sincIn_calc_needed_len chunk ratio target ∧
+    inMaxOut chunk orig maxRel Fast.polyLen = Formulas.fastOut_input_frames_max chunk orig maxRel ∧
+    inMaxOut chunk orig maxRel L = Formulas.sincOut_input_frames_max chunk orig maxRel L ∧
+    neededInit chunk ratio Fast.polyLen = Formulas.fastOut_needed_new chunk ratio ∧
+    neededInit chunk ratio L = Formulas.sincOut_needed_new chunk ratio L ∧
+    neededInit chunk orig Fast.polyLen = Formulas.fastOut_needed_reset chunk orig ∧
+    neededInit chunk ratio L = Formulas.sincOut_needed_reset chunk ratio L ∧
+    bufLenOut maxRel needed Fast.polyLen = Formulas.fastOut_buffer_len_new maxRel needed ∧
+    bufLenOut maxRel needed L = Formulas.sincOut_buffer_len_new maxRel needed L ∧
+    neededFastAfter last chunk ratio Fast.polyLen = Formulas.fastOut_needed_after last chunk ratio ∧
+    neededFastSet last chunk ratio target Fast.polyLen = Formulas.fastOut_needed_set last chunk ratio target ∧
+    neededSinc last chunk ratio target L = Formulas.sincOut_update_needed_len last chunk ratio target L :=
+  ⟨rfl, rfl, rfl, rfl, rfl, rfl, rfl, rfl, rfl, rfl, rfl, rfl, rfl, rfl, rfl, rfl⟩
+
+end Rubato.C04
+
+namespace Rubato.C04
+/-- … and each regenerated formula reads exactly the struct fields the model feeds it (guards against wrong-field slips) -/
+theorem formulas_read_the_expected_fields_C04 :
+    (Rubato.Gen.Formulas.formulaParams.map (·.1)).length = 24 ∧
+    Rubato.Gen.Formulas.formulaParams.lookup "fastIn_output_delay" = some ["resample_ratio"] ∧
+    Rubato.Gen.Formulas.formulaParams.lookup "fastOut_output_delay" = some ["resample_ratio"] ∧
+    Rubato.Gen.Formulas.formulaParams.lookup "sincIn_output_delay" = some ["sinc_len", "resample_ratio"] ∧
+    Rubato.Gen.Formulas.formulaParams.lookup "sincOut_output_delay" = some ["sinc_len", "resample_ratio"] := by
+  rw [Rubato.FormulaTie.formulas_read_the_expected_fields]
+  decide
 end Rubato.C04
